@@ -238,6 +238,76 @@ let run_A ss cout =
                else String.concat ";" (List.map2 (fun x g -> chk [x] g) s got));
     "pf:" ^ (match s with [] -> "-" | x :: _ -> chk [x] (get "pf:")) ]
 
+(* ---- S: intersection / union of two sets with valio-token end points.  The model runs on the reference numbers
+   themselves (carrier xval, comparison xv_cmp of RefAlg; the theorems of C13 hold for every totally ordered carrier).
+   libpoly's result sets are read back from their tokens and must equal the model's interval by interval (same flags,
+   same is_point, end points equal as numbers); integer queries and picks of the results as in A. *)
+let same_set (a : xval itv list) (b : xval itv list) : bool =
+  List.length a = List.length b &&
+  List.for_all2 (fun x y ->
+    x.ipt = y.ipt && x.ia_open = y.ia_open && x.ib_open = y.ib_open && xcmp x.ia y.ia = Eq &&
+    (x.ipt || xcmp x.ib y.ib = Eq)) a b
+
+let str_xitv (x : xval itv) : string =
+  if x.ipt then "{" ^ string_of_xval x.ia ^ "}"
+  else (if x.ia_open then "(" else "[") ^ string_of_xval x.ia ^ "|" ^ string_of_xval x.ib ^ (if x.ib_open then ")" else "]")
+let str_xset (s : xval itv list) : string = if s = [] then "{}" else String.concat ";" (List.map str_xitv s)
+
+let run_S s1s s2s cout =
+  let s1 = parse_aset s1s and s2 = parse_aset s2s in
+  let get pre = (match field cout pre with Some x -> x | None -> "MISSING") in
+  let isect = fs_intersect xcmp s1 s2 in
+  let su = fs_add xcmp XMinf XPinf s1 s2 and sv = fs_add xcmp XMinf XPinf s2 s1 in
+  (* libpoly's set text is echoed when it denotes the model's list *)
+  let set_field pre (m : xval itv list option) : string =
+    match m with
+    | None -> "ABORT"
+    | Some m ->
+      let got = get pre in
+      (match (try Some (parse_aset got) with Bad_value _ | Bad _ -> None) with
+       | Some g when same_set g m -> got
+       | _ -> "EXPECTED(" ^ str_xset m ^ ")") in
+  let queries (m : xval itv list option) : string =
+    match m with
+    | None -> "ABORT"
+    | Some m ->
+      let es = List.map epi_of_itv m in
+      String.concat "," [
+        string_of_bool01 (es_contains_int es); string_of_z (es_count_int es); string_of_bool01 (es_is_point_int es);
+        String.concat "" (List.map (fun x -> string_of_bool01 (ei_contains_int x)) es);
+        String.concat "+" (List.map (fun x -> string_of_z (ei_count_int x)) es) ] in
+  let pick pre (m : xval itv list option) : string =
+    match m with
+    | None -> "ABORT"
+    | Some [] -> "-"
+    | Some m ->
+      let got = get pre in
+      (match (try Some (snd (value_of_token got)) with Bad_value _ -> None) with
+       | None -> "BAD-VALUE(" ^ got ^ ")"
+       | Some v ->
+         if not (List.exists (fun x -> itv_contains xcmp x v) m) then "NOT-IN-SET(" ^ got ^ ")"
+         else if es_contains_int (List.map epi_of_itv m) && not (xval_is_int v) then "NOT-AN-INTEGER(" ^ got ^ ")"
+         else got) in
+  let xflags = function
+    | None -> "ABORT"
+    | Some m -> string_of_bool01 (fs_is_empty m) ^ string_of_bool01 (fs_is_full xcmp XMinf XPinf m) ^ string_of_bool01 (fs_is_point m) in
+  let ends (s : xval itv list) = List.concat_map (fun x -> [x.ia; x.ib]) s in
+  let sweep = function
+    | None -> "ABORT"
+    | Some m -> String.concat "" (List.map (fun v ->
+        match fs_contains xcmp m v with Some b -> string_of_bool01 b | None -> "A") (ends s1 @ ends s2)) in
+  let si = (match isect with Some (r, _) -> Some r | None -> None) in
+  String.concat " " [
+    "i:" ^ set_field "i:" si;
+    "st:" ^ (match isect with Some (_, st) -> string_of_int (status_code st) | None -> "ABORT");
+    "u:" ^ set_field "u:" su;
+    "v:" ^ set_field "v:" sv;
+    "f:" ^ xflags si ^ xflags su;
+    "q1:" ^ queries (Some s1); "q2:" ^ queries (Some s2);
+    "qi:" ^ queries si; "qu:" ^ queries su;
+    "ki:" ^ pick "ki:" si; "ku:" ^ pick "ku:" su;
+    "m:" ^ sweep si ^ "," ^ sweep su ]
+
 let run (toks : string list) (cout : string list) : string =
   try
     match toks with
@@ -245,6 +315,7 @@ let run (toks : string list) (cout : string list) : string =
     | ["C"; i1; i2] -> run_C i1 i2
     | ["Q"; s] -> run_Q s cout
     | ["A"; s] -> (try run_A s cout with Fuel -> "FUEL" | Bad_value m -> "BAD-CASE " ^ m)
+    | ["S"; s1; s2] -> (try run_S s1 s2 cout with Fuel -> "FUEL" | Bad_value m -> "BAD-CASE " ^ m)
     | ["POOL"] -> string_of_int npool
     | _ -> "UNKNOWN-OP"
   with Bad s -> "BAD-CASE " ^ s
